@@ -13,15 +13,14 @@ import (
 )
 
 type crashProgCfg struct {
-	Prop       string
-	WriteBias  bool // C07: mostly writes of all stability levels, commits, a few metadata operations
-	MaxPoints  int
-	NRand      int
-	FsckImages bool
+	Prop      string
+	WriteBias bool // C07: mostly writes of all stability levels, commits, a few metadata operations
+	MaxPoints int
+	NRand     int
 }
 
 func runCrashProperty(t *rapid.T, pc crashProgCfg) {
-	size := uint64(rapid.IntRange(2600, 4500).Draw(t, "disksize"))
+	size := uint64(rapid.IntRange(2600, 5200).Draw(t, "disksize"))
 	unstable := rapid.IntRange(0, 3).Draw(t, "unstable") > 0
 	salt := rapid.Uint64().Draw(t, "salt")
 	cr, err := NewCrashRun(size, unstable, pc.Prop)
@@ -113,6 +112,26 @@ func runCrashProperty(t *rapid.T, pc crashProgCfg) {
 			stepErr = err
 		}
 	})
+	// a dense file of several hundred blocks: freeing it takes several shrinker transactions
+	ndense := 0
+	acts["densebig"] = wrap(func(t *rapid.T) {
+		files := x.M.LiveKind(nt.NF3REG)
+		if len(files) == 0 || ndense >= 1 || x.Budget < 1400 {
+			return
+		}
+		ndense++
+		f := pick(t, files, "file")
+		start := uint64(rapid.IntRange(0, 200).Draw(t, "startblock"))
+		nw := rapid.IntRange(2, 3).Draw(t, "nwrites")
+		for i := 0; i < nw; i++ {
+			n := uint32(rapid.IntRange(300, 470).Draw(t, "blocks")) * BlockSize
+			if err := x.Write(LiveRef(f), start*BlockSize, patternData(g.nextTag(), uint64(n)), n, pick(t, g.Cfg.Stable, "stable")); err != nil {
+				stepErr = err
+				return
+			}
+			start += uint64(n / BlockSize)
+		}
+	})
 	// ... and truncations of such files by more than the journal can free in one transaction
 	acts["shrinkbig"] = wrap(func(t *rapid.T) {
 		var big []*MNode
@@ -145,10 +164,7 @@ func runCrashProperty(t *rapid.T, pc crashProgCfg) {
 	n, fail := ExploreCrashes(cr.D, pts, salt, pc.NRand, func(img *Disk, c CrashCase) error {
 		h := Hash(progHash, c.K, c.VarIdx)
 		opts := ImageOpts{Suffix: h%16 == 0, Recrash: h%32 == 1, SuffixIfTruncatedData: true}
-		if pc.FsckImages {
-			opts.Fsck = fsckServer
-		}
-		_, err := cr.CheckImage(img, c.K, opts)
+		_, _, err := cr.CheckImage(img, c.K, opts)
 		if err != nil {
 			return err
 		}
